@@ -180,8 +180,13 @@ func WetterK(VWDAT string, year int, g *GlobalVarsMain, s *WeatherDataShared, hP
 
 type corrArr []float64
 
-func (CORRK corrArr) getCorrValue(T int) float64 {
+func (CORRK corrArr) getCorrValue(T int, leapYear bool) float64 {
 	var cor float64
+	if leapYear && T > 59 {
+		// the month limits below are those of a regular year: 29 February belongs to February,
+		// every later day of a leap year has the month of the day before it in a regular year
+		T--
+	}
 	if T < 32 {
 		cor = CORRK[0]
 	} else if T < 60 {
@@ -591,8 +596,9 @@ func ReadWeatherCZ(VWDAT string, startyear int, g *GlobalVarsMain, s *WeatherDat
 func (s *WeatherDataShared) transformWeatherData(yrz int, corr corrArr) {
 	for y := 0; y < yrz; y++ {
 		T := s.MaxYearDays[y]
+		leapYear := s.JAR[y]%4 == 0
 		for index := 0; index < T; index++ {
-			cor := corr.getCorrValue(index + 1)
+			cor := corr.getCorrValue(index+1, leapYear)
 			// water model for rivers calculates in cm, so mm is transformed to cm by dividing by 10
 
 			// correction of precipitation (turn on/off in config)
